@@ -199,15 +199,16 @@ func run(c *core.Ctx) error {
 
 	// ---- replay on the real lake, schedules forced
 	rng := rand.New(rand.NewSource(c.Seed + 8))
-	budget := 25 * time.Second
+	budget, minCases := 25*time.Second, 150
 	if !c.Quick() {
-		budget = 6 * time.Minute
+		budget, minCases = 6*time.Minute, 2000
 	}
 	order := rng.Perm(len(cases))
 	t0 := time.Now()
 	done := 0
 	for _, i := range order {
-		if time.Since(t0) > budget {
+		// a time budget, but never fewer than minCases (a loaded machine must not make the run vacuous)
+		if el := time.Since(t0); (el > budget && done >= minCases) || el > 8*budget {
 			break
 		}
 		if err := h.replayCase(&cases[i], len(h.traces)+1); err != nil {
